@@ -70,6 +70,10 @@ type presented struct {
 	hash int
 	sig  int
 	val  []byte
+	// VerifySCTSignature takes the SCT and a log entry whose Merkle leaf repeats timestamp and extensions; the
+	// signed ones are the SCT's.  asSigned keeps the leaf's copies at the values that were signed while the SCT's
+	// are mutated (so a verifier reading the wrong copy accepts a changed SCT).
+	asSigned *fields
 }
 
 func (p *presented) ds() tls.DigitallySigned {
@@ -104,7 +108,10 @@ func (p *presented) sctBytes() []byte {
 }
 
 func (p *presented) leaf() ct.MerkleTreeLeaf {
-	te := &ct.TimestampedEntry{Timestamp: p.f.ts, EntryType: ct.LogEntryType(p.f.etype)}
+	te := &ct.TimestampedEntry{Timestamp: p.f.ts, EntryType: ct.LogEntryType(p.f.etype), Extensions: ct.CTExtensions(p.f.ext)}
+	if p.asSigned != nil {
+		te.Timestamp, te.Extensions = p.asSigned.ts, ct.CTExtensions(p.asSigned.ext)
+	}
 	if len(p.f.cert) > 0 {
 		te.X509Entry = &ct.ASN1Cert{Data: p.f.cert}
 	}
